@@ -16,9 +16,9 @@ def ast_children(variant):
     return [n for n, t in variant["fields"] if "AST" in t]
 
 
-def visitors(syn):
-    """functions of the generate family with an AST-typed parameter that (transitively) call `generate`"""
-    fam = [f for f in syn.fns if f["mod"].startswith(GEN_MOD) and not f["mod"].endswith("::env") and f.get("body")]
+def visitors(syn, mod=GEN_MOD, root="generate"):
+    """functions of the family (module prefix `mod`) that (transitively) call `root`"""
+    fam = [f for f in syn.fns if f["mod"].startswith(mod) and not f["mod"].endswith("::env") and not f["mod"].endswith("::tests") and not f["mod"].endswith("::test") and f.get("body")]
     byname = {}
     for f in fam:
         byname.setdefault(f["name"], []).append(f)
@@ -29,11 +29,14 @@ def visitors(syn):
             if n.get("k") == "call" and n["f"].get("k") == "path":
                 cs.add(n["f"]["p"].split("::")[-1])
         calls[f["name"]] = calls.get(f["name"], set()) | cs
-    vis = {"generate"}
-    # the handlers `generate` dispatches to are delegation targets even when they do not recurse (gen_ty)
+    vis = {root}
+    # the handlers the root dispatches to are delegation targets even when they do not recurse (gen_ty)
     for f in fam:
-        if f["name"] == "generate":
-            vis |= {c for c in calls["generate"] if c in byname}
+        if f["name"] == root:
+            for n in walk(f["body"]):
+                if n.get("k") == "call" and n["f"].get("k") == "path" and n["f"]["p"].split("::")[-1] in byname and \
+                        any(src(strip(a)) == "ast" for a in n["args"]):
+                    vis.add(n["f"]["p"].split("::")[-1])
     changed = True
     while changed:
         changed = False
@@ -41,6 +44,8 @@ def visitors(syn):
             if name not in vis and cs & vis:
                 vis.add(name)
                 changed = True
+    # conversion-trait method names are shared with std (`Box::from(x)` must not count as a visit)
+    vis -= {"from", "new", "default", "try_from", "into", "clone", "fmt"}
     return vis, fam
 
 
@@ -108,7 +113,7 @@ def _sites(f):
     return out
 
 
-def census(syn):
+def census(syn, mod=GEN_MOD, root="generate", enum=NODE, prefix="Node", child_marker="AST"):
     """-> rows dict(fn, variant, child, status, via) for every destructuring site of a visitor function.
     status: visited   - the child (or something derived from it) is handed to a visitor under the pattern
             delegated - the node being taken apart is itself handed to a visitor (by the code under the pattern, or - for a node
@@ -116,8 +121,8 @@ def census(syn):
             unbound   - the pattern does not bind the child (`..`, `_`)
             unused    - bound, never handed to a visitor
     """
-    vis, fam = visitors(syn)
-    variants = syn.enum_variants(NODE)
+    vis, fam = visitors(syn, mod, root)
+    variants = syn.enum_variants(enum)
     rows = []
     for f in fam:
         if f["name"] not in vis:
@@ -131,7 +136,7 @@ def census(syn):
                     if p.get("k") != "pstruct":
                         continue
                     head = p["p"].split("::")
-                    if len(head) > 2 or head[-1] not in variants or (len(head) == 2 and head[0] != "Node"):
+                    if len(head) > 2 or head[-1] not in variants or (len(head) == 2 and head[0] != prefix):
                         continue
                     v = variants[head[-1]]
                     bound = {}
@@ -146,7 +151,7 @@ def census(syn):
                             if encl:
                                 inner = min(encl, key=lambda e: len(e["inside"]))
                                 delegated = visited(inner["scope"], inner["binds"] & scrut, vis)
-                    for child in ast_children(v):
+                    for child in [n for n, t in v["fields"] if child_marker in t]:
                         names = bound.get(child)
                         row = {"fn": f["name"], "variant": head[-1], "child": child, "via": None}
                         if names and visited(scope, names, vis):
